@@ -309,7 +309,7 @@ class Script:
 
         defs = [classes.Name(self._inference_state, d) for d in set(names)]
         # Avoid duplicates
-        return list(set(helpers.sorted_definitions(defs)))
+        return helpers.sorted_definitions(set(defs))
 
     def search(self, string, *, all_scopes=False):
         """
